@@ -78,6 +78,32 @@ def _valid(pc, claim):
     return zcheck(s, ms=SIDE_TIMEOUT_MS) == z3.unsat
 
 
+def _numeric_relation(pc, ua, ub):
+    """[('prod', c)] if pc |= ua*ub == c, [('ratio', c)] if pc |= ua == c*ub, for a positive rational constant c"""
+    stats["side_queries"] += 1
+    s = _mk_solver(SIDE_TIMEOUT_MS)
+    s.add(*pc)
+    if zcheck(s, ms=SIDE_TIMEOUT_MS) != z3.sat:
+        return []
+    m = s.model()
+    out = []
+    for kind, term in (("prod", ua * ub), ("ratio", ua / ub)):
+        try:
+            v = m.eval(term, model_completion=True)
+            if not z3.is_rational_value(v):
+                continue
+            c = v.numerator_as_long() / float(v.denominator_as_long())
+            if c <= 0:
+                continue
+            claim = (ua * ub == v) if kind == "prod" else (ua == v * ub)
+            if _valid(pc, claim):
+                out.append((kind, c))
+                break
+        except Exception:
+            continue
+    return out
+
+
 def instantiate(fmls, timeout_ms=None):
     """fmls = path condition + negated goal.  Returns extra axioms (list)."""
     t0 = time.time()
@@ -141,6 +167,7 @@ def instantiate(fmls, timeout_ms=None):
         elif _valid(pc, a.arg(0) * b.arg(0) == 1):
             ax.append(a == -b)
         else:
+            hit = False
             for n in (2, 3):
                 pa = b.arg(0)
                 pb = a.arg(0)
@@ -149,10 +176,23 @@ def instantiate(fmls, timeout_ms=None):
                     pb = pb * a.arg(0)
                 if _valid(pc, a.arg(0) == pa):
                     ax.append(a == n * b)
+                    hit = True
                     break
                 if _valid(pc, b.arg(0) == pb):
                     ax.append(b == n * a)
+                    hit = True
                     break
+            if not hit:
+                # arguments related through a NUMERIC constant (typed/concrete inputs fold log(c) into a float):
+                # u_a * u_b = c  =>  log u_a + log u_b = log c ;  u_a = c * u_b  =>  log u_a - log u_b = log c.
+                # The candidate c is read off a model of the path condition and then PROVED; log c is the float
+                # value, asserted within 1e-12 (rounding of libm's log).
+                for kind, cval in _numeric_relation(pc, a.arg(0), b.arg(0)):
+                    import math
+                    lc = math.log(cval)
+                    lo, hi = z3.RealVal(repr(lc - 1e-12)), z3.RealVal(repr(lc + 1e-12))
+                    t = (a + b) if kind == "prod" else (a - b)
+                    ax.append(z3.And(t >= lo, t <= hi))
     if len(L) >= 3:
         for a in L:
             others = [x for x in L if x is not a]
